@@ -4,6 +4,7 @@ import (
 	"log/slog"
 
 	"github.com/bits-and-blooms/bloom/v3"
+	"github.com/tidwall/gjson"
 )
 
 // ---------------------------------------------------------------------------------------------
@@ -195,6 +196,44 @@ func H_C25_regex_trees_mean_what_they_say() {
 		b := &BloomSearchEngine{}
 		vpAssert(b.evaluateBloomFilters(c.filter, nil, nil, prune), "C01: the regex field guard prunes although the regex tree is satisfied")
 	}
+}
+
+// The same trees evaluated by the REAL matcher on a REAL row (compiledRowMatcher.match with its lazy
+// regex pass and scratch), not by the node evaluator on given leaf verdicts: the row is built so that
+// leaf i's field is absent, present with a text the pattern rejects, or present with a text it
+// accepts — a leaf whose field the row lacks must not change what the other leaves contribute.
+//
+//vp:bounds regex trees of depth <= 2, width <= 2 (at most 4 FieldRegex leaves on distinct fields f0..f3 with the literal pattern p, or empty-field leaves); the row is an object holding, per leaf, no member / a member whose text lacks p / a member whose text is p; regexp.Compile succeeds
+//vp:maxpaths 600000
+func H_C25_regex_trees_evaluate_as_written_on_real_rows() {
+	c := &vpTreeCtx{filter: vpNewBloom()}
+	tree, truth := vpRegexTree(c, 2, 2)
+	crq, err := compileRegexQuery(&RegexQuery{Expression: &tree})
+	vpAssume(err == nil)
+	root := &vpNode{Kind: 1}
+	for i, t := range c.truths {
+		switch {
+		case t:
+			root.Kids = append(root.Kids, &vpNode{Key: vpLeafName(i), Type: gjson.String, Text: "p"})
+		case nondetBool():
+			root.Kids = append(root.Kids, &vpNode{Key: vpLeafName(i), Type: gjson.String, Text: "q"})
+		}
+	}
+	m := compileRowMatcher(&BloomQuery{}, crq, ".", BasicWhitespaceLowerTokenizer)
+	scratch := newRowMatchScratch(m)
+	// matchRowBytes' own gate (the row here is an abstract gjson value, so its two constant cases
+	// are taken from the matcher's flags exactly as matchRowBytes does; match is never entered
+	// with them set)
+	var got bool
+	switch {
+	case m.matchesAll:
+		got = true
+	case m.neverMatches:
+		got = false
+	default:
+		got = m.match(vpToGJSON(root), scratch)
+	}
+	vpAssert(got == truth, "C25: the row matcher's verdict on a row is not the nested boolean combination of the regex tree's leaves")
 }
 
 // Prefilter constructors.
